@@ -145,3 +145,19 @@ func (a *Analyzer) FieldPtr(p Term, pt types.Type, name string) (*Ptr, types.Typ
 	}
 	return nil, nil
 }
+
+// StoreDeref / LoadDeref access the location a pointer term designates (entry set-up, hooks).
+func (a *Analyzer) StoreDeref(st *State, p *Ptr, v Term, t types.Type) { a.store(st, p, v, t) }
+func (a *Analyzer) LoadDeref(st *State, p *Ptr, t types.Type) Term     { return a.load(st, p, t) }
+
+// BoolEquivalent reports whether, in st, the boolean b holds exactly when constraint c holds.
+func (a *Analyzer) BoolEquivalent(st *State, b *Bool, c Con) bool {
+	ts, fs := a.branch(st.Clone(), b)
+	if ts != nil && !ts.Entails(c) {
+		return false
+	}
+	if fs != nil && fs.Feasible(c) {
+		return false
+	}
+	return true
+}
